@@ -13,6 +13,7 @@ Parts (each a Family):
 """
 from __future__ import annotations
 
+import atexit
 import bisect
 import calendar
 import copy
@@ -121,21 +122,35 @@ def coq_header(prop: str) -> str:
     of the run then loads."""
     d = BUILD / prop
     if prop not in _ZONES_BUILT:
-        d.mkdir(parents=True, exist_ok=True)
+        # compiled inside this process's own directory (where eval_cases puts the case files), so
+        # that concurrent runs of the same check never share a half-written file
+        sub = d / f"p{os.getpid()}"
+        sub.mkdir(parents=True, exist_ok=True)
         src = ["From CG Require Export Harness.RecurChk."]
         for z in ZONES:
             src.append(f"Definition {zname(z)} : zone := {zone_term(z)}.")
-        f = d / "RecurZones.v"
+        f = sub / "RecurZones.v"
         f.write_text("\n".join(src) + "\n")
         subprocess.run(["flock", str(COQ / ".lock"), "true"])      # wait for a running make
         rc, out, err = run_coqc(f)
         if rc != 0:
             raise RuntimeError(f"coqc failed on {f}: {err[-2000:]}")
-        # eval_cases may compile the case files in a per-process sub-directory
-        sub = d / f"p{os.getpid()}"
-        sub.mkdir(parents=True, exist_ok=True)
-        shutil.copy(f.with_suffix(".vo"), sub / "RecurZones.vo")
+        # also where eval_cases used to compile (build/<prop>), replaced atomically
+        tmp = d / f"RecurZones.vo.{os.getpid()}"
+        shutil.copy(f.with_suffix(".vo"), tmp)
+        os.replace(tmp, d / "RecurZones.vo")
         _ZONES_BUILT.add(prop)
+
+        def _cleanup(sub=sub):
+            for q in sub.glob("RecurZones.*"):
+                q.unlink(missing_ok=True)
+            for q in sub.glob(".RecurZones.*"):
+                q.unlink(missing_ok=True)
+            try:
+                sub.rmdir()
+            except OSError:
+                pass
+        atexit.register(_cleanup)
     # case files are compiled with cwd = build/<prop>, which coqc maps to the empty logical path
     return "Require Import RecurZones.\n"
 
@@ -150,7 +165,15 @@ def utc_of_wall(tz, w, fold):
     return int(naive.replace(tzinfo=tz, fold=fold).timestamp())
 
 
-class ZoneFamily(Family):
+class _LazyHeader:
+    """the zone tables are exported and compiled only when a part is really evaluated (this module
+    is imported by every ./check run)"""
+    @property
+    def header(self):
+        return coq_header(self.prop)
+
+
+class ZoneFamily(_LazyHeader, Family):
     name = "zones"
     case_type = "zcase"
     corr = "corr_zone"
@@ -164,7 +187,6 @@ class ZoneFamily(Family):
 
     def __init__(self, prop):
         super().__init__(prop)
-        self.header = coq_header(prop)
 
     def gen(self, rng, tier, n):
         offs = [-86400, -3601, -3600, -1801, -1800, -1, 0, 1, 1799, 1800, 3599, 3600, 7200]
@@ -579,7 +601,7 @@ def add_exdates(rng, rule, occ):
     rule["exdates"] = sorted(set(ex))
 
 
-class RecurFamily(Family):
+class RecurFamily(_LazyHeader, Family):
     case_type = "rcase"
     corr = "corr_recur"
     shard = 120
@@ -588,7 +610,6 @@ class RecurFamily(Family):
     def __init__(self, prop, name, oracle, n_quick, n_thorough, hard):
         super().__init__(prop)
         self.name, self.oracle, self.n_quick, self.n_thorough, self.hard = name, oracle, n_quick, n_thorough, hard
-        self.header = coq_header(prop)
         if not hard:
             self.dom_funcs = {"MIXED_BYDAY": "no_mixed_byday"}
         self.rule = (
@@ -828,7 +849,7 @@ class RecurFamily(Family):
 # --------------------------------------------------------------------------------------------
 # rrule_model against dateutil.rrule
 
-class RRuleFamily(Family):
+class RRuleFamily(_LazyHeader, Family):
     name = "rrule"
     case_type = "qcase"
     corr = "corr_rrule"
@@ -841,7 +862,6 @@ class RRuleFamily(Family):
     def __init__(self, prop, n_quick, n_thorough):
         super().__init__(prop)
         self.n_quick, self.n_thorough = n_quick, n_thorough
-        self.header = coq_header(prop)
 
     def gen(self, rng, tier, n):
         made = 0
